@@ -106,7 +106,7 @@ impl Prop for C17 {
         vec![("removal-with-shared-tag", 0.1)]
     }
     fn release_fraction(&self, tier: Tier) -> f64 {
-        tier.pick(0.4, 0.5)
+        tier.pick(0.4, 0.1)
     }
     fn max_shrink_iters(&self) -> u32 {
         400
